@@ -9,6 +9,7 @@ from ckl.functions import (
 )
 from ckl.values import (
     ConsoleOutput,
+    HostInput,
     ValueInput,
     ValueOutput,
     ValueString,
@@ -21,7 +22,7 @@ class Interpreter:
         self.environment = self.base_environment.newEnv()
         self.base_environment.put("console", ValueOutput(ConsoleOutput()))
         self.base_environment.put("stdout", ValueOutput(sys.stdout))
-        self.base_environment.put("stdin", ValueInput(sys.stdin))
+        self.base_environment.put("stdin", ValueInput(HostInput(sys.stdin)))
         if not secure:
             self.base_environment.put("run", FuncRun(self))
 
@@ -29,6 +30,8 @@ class Interpreter:
         self.base_environment.put("stdout", ValueOutput(stdout))
 
     def setStandardInput(self, stdin):
+        if not hasattr(stdin, "readLine"):
+            stdin = HostInput(stdin)
         self.base_environment.put("stdin", ValueInput(stdin))
 
     def loadFile(self, filename, encoding="utf8"):
